@@ -26,6 +26,9 @@ type Case struct {
 
 var worker *sb.Worker
 
+// outcome class of the most recent oracle call (the test process is single-threaded)
+var lastClass string
+
 // process-terminating calls are documented behaviour, not crashes
 func terminates(src string) bool {
 	return strings.Contains(src, "exit")
@@ -80,6 +83,7 @@ func oracle(c Case, ctx *pbt.Ctx) error {
 	}
 	res := worker.Do(sb.Req{Mode: "run", Source: c.Src}, 20*time.Second)
 	class, detail := classify(res)
+	lastClass = class
 	ctx.Label("outcome:" + class)
 	switch class {
 	case sb.Timeout:
@@ -232,6 +236,86 @@ func TestCollectionPrograms(t *testing.T) {
 	defer worker.Close()
 	pbt.Run(t, pbt.Prop[Case]{Name: "collection_programs", Quick: 800, Thorough: 30000,
 		Gen: func(t *rapid.T) Case { return Case{collectionProgram(t)} }, Oracle: oracle})
+}
+
+// declSrc: bodies (top level, module, class) whose statements are a shuffle of value-producing
+// expressions and of every declaration-like statement that emits no code of its own; what matters is
+// which kind of statement ends a body (the compiler must know that nothing was pushed for it).
+func declSrc(t *rapid.T) string {
+	n := 0
+	fresh := func(p string) string { n++; return fmt.Sprintf("%s%d", p, n) }
+	var body func(kind string, depth int, ind string) []string
+	body = func(kind string, depth int, ind string) []string {
+		var out []string
+		var defs []string
+		for i := rapid.IntRange(1, 6).Draw(t, "nstmts"); i > 0; i-- {
+			switch vgen.Pick(t, 16, "decl") {
+			case 0, 1:
+				out = append(out, ind+fmt.Sprintf("println(%d)", rapid.IntRange(0, 9).Draw(t, "v")))
+			case 2:
+				out = append(out, ind+fmt.Sprintf("%d + %d", rapid.IntRange(0, 9).Draw(t, "a"), rapid.IntRange(0, 9).Draw(t, "b")))
+			case 3:
+				out = append(out, ind+"typedef "+fresh("T")+" = Int?")
+			case 4:
+				out = append(out, ind+"typedef "+fresh("G")+"[V] = V?")
+			case 5:
+				out = append(out, ind+"typedef "+fresh("H")+"[K, V < Int] = K | V")
+			case 6:
+				out = append(out, ind+"const "+fresh("K")+" = "+fmt.Sprint(rapid.IntRange(0, 99).Draw(t, "k")))
+			case 7:
+				d := fresh("m")
+				defs = append(defs, d)
+				out = append(out, ind+"def "+d+": Int then 1")
+			case 8:
+				if len(defs) > 0 {
+					out = append(out, ind+"alias "+fresh("al")+" "+defs[len(defs)-1])
+				}
+			case 9:
+				out = append(out, ind+"interface "+fresh("I")+"; end")
+			case 10:
+				out = append(out, ind+"mixin "+fresh("X")+"; end")
+			case 11:
+				if depth < 2 {
+					nm := fresh("C")
+					out = append(out, ind+"class "+nm)
+					out = append(out, body("class", depth+1, ind+"  ")...)
+					out = append(out, ind+"end")
+				}
+			case 12:
+				if depth < 2 {
+					nm := fresh("M")
+					out = append(out, ind+"module "+nm)
+					out = append(out, body("module", depth+1, ind+"  ")...)
+					out = append(out, ind+"end")
+				}
+			case 13:
+				if kind == "class" {
+					out = append(out, ind+"attr "+fresh("at")+": Int?")
+				}
+			case 14:
+				out = append(out, ind+"using Std::Sync::*")
+			default:
+				out = append(out, ind+"var "+fresh("v")+": Int = 3")
+			}
+		}
+		return out
+	}
+	return strings.Join(body("top", 0, ""), "\n") + "\n"
+}
+
+func TestDeclarationPrograms(t *testing.T) {
+	pbt.Rule("declaration_programs", "generated bodies (top level, module and class bodies nested up to depth 2) mixing value-producing expressions with declaration-like statements (typedef, generic typedef, const, def, alias, interface, mixin, class, module, attr, using, var) in every order; compiled and run: neither the compiler nor the VM may crash; non-trivial = accepted and executed; distinct by source")
+	worker = sb.New("debug")
+	defer worker.Close()
+	pbt.Run(t, pbt.Prop[Case]{Name: "declaration_programs", Quick: 600, Thorough: 20000,
+		Gen: func(t *rapid.T) Case { return Case{declSrc(t)} },
+		Oracle: func(c Case, ctx *pbt.Ctx) error {
+			err := oracle(c, ctx)
+			if err == nil && (lastClass == sb.OK || lastClass == sb.ElkError) {
+				ctx.NonTrivial(c.Src)
+			}
+			return err
+		}})
 }
 
 func TestMiniPrograms(t *testing.T) {
